@@ -9,30 +9,34 @@ VARIABLES tid, l, obsfiles, raisedT
 tvars == <<vars, tid, l, obsfiles, raisedT>>
 Ev == Traces[tid][l]
 PreOf(t) == {Traces[t][1].pre[i] : i \in DOMAIN Traces[t][1].pre}
+PreEOf(t) == {Traces[t][1].preE[i] : i \in DOMAIN Traces[t][1].preE}
 TInit == /\ tid \in 1..Len(Traces) /\ l = 2 /\ raisedT = FALSE
-         /\ clock = 0 /\ pre = PreOf(tid) /\ exists = {File(p) : p \in pre}
-         /\ content = [f \in Names |-> IF f[2] = 0 /\ f[1] \in pre THEN <<PreId(f[1])>> ELSE <<>>]
+         /\ clock = 0 /\ pre = PreOf(tid) /\ preE = PreEOf(tid) /\ InitFiles
          /\ cur = None /\ nw = 0 /\ dest = <<>> /\ closed = FALSE
          /\ obsfiles = Traces[tid][1].files
 StepC == /\ nw' = IF Ev.op = "write" THEN nw + 1 ELSE nw
          /\ dest' = IF Ev.op = "write" THEN Append(dest, Ev.p) ELSE dest
          /\ obsfiles' = Ev.files /\ raisedT' = (raisedT \/ Ev.raised)
-         /\ UNCHANGED <<clock, exists, content, cur, pre, closed>>
-ObsSet(fs) == {<<fs[i].b, fs[i].rot, fs[i].ids>> : i \in DOMAIN fs}
-ModelSet(ex, co) == {<<Base(f), f[2] > 0, co[f]>> : f \in ex}
+         /\ UNCHANGED <<clock, exists, content, cur, pre, closed, preE, ino>>
+ObsSet(fs) == {<<fs[i].b, fs[i].rot, fs[i].ids, fs[i].ino>> : i \in DOMAIN fs}
+ModelSet(ex, co, io) == {<<Base(f), f[2] > 0, co[f], io[f]>> : f \in ex}
 StepD == /\ CASE Ev.op = "write" -> Write(Ev.p) [] Ev.op = "tick" -> Tick [] Ev.op = "close" -> Close
          /\ ~Ev.raised
-         /\ ObsSet(Ev.files) = ModelSet(exists', content')
+         /\ ObsSet(Ev.files) = ModelSet(exists', content', ino')
          /\ obsfiles' = Ev.files /\ UNCHANGED raisedT
 On == Mode = "contract"
 HoldersO(id) == {i \in DOMAIN obsfiles : id \in SeqToSet(obsfiles[i].ids)}
-Expected == (1..nw) \cup {PreId(p) : p \in pre}
+Expected == (1..nw) \cup {PreId(p) : p \in pre \ preE}
 DestOf(id) == IF id > 100 THEN (CHOOSE p \in pre : PreId(p) = id) ELSE dest[id]
 CNoLoss == On => \A id \in Expected : Cardinality(HoldersO(id)) = 1
 CInRightFile == On => \A id \in Expected : \A i \in HoldersO(id) : obsfiles[i].b = DestOf(id)
 CNoStrangers == On => \A i \in DOMAIN obsfiles : SeqToSet(obsfiles[i].ids) \subseteq Expected
 CNoRaise == On => ~raisedT
-AllOK == CNoLoss /\ CInRightFile /\ CNoStrangers /\ CNoRaise
+\* every file that was there before the writer started (identified by its inode) is still there, under a name of its own
+\* path, and holds nothing the writer wrote
+CNeverOverwrites == On => \A p \in pre : \E i \in DOMAIN obsfiles : /\ obsfiles[i].ino = PreId(p) /\ obsfiles[i].b = p
+                                                                    /\ \A k \in DOMAIN obsfiles[i].ids : obsfiles[i].ids[k] > 100
+AllOK == CNoLoss /\ CInRightFile /\ CNoStrangers /\ CNoRaise /\ CNeverOverwrites
 TNext == /\ l <= Len(Traces[tid]) /\ AllOK
          /\ IF On THEN StepC ELSE StepD
          /\ l' = l + 1 /\ UNCHANGED tid
